@@ -122,6 +122,8 @@ def t_wal(ctx):
             m = ctx.main
             p = m.dispatch(a, ctx.ev(P, 'P1', event_timeout=30.0))
             q = m.dispatch(a, ctx.ev(PayloadEvent, 'Q1', event_timeout=30.0, extra_field={'x': [1, 'ü']}))
+            if ctx.cfg.get('unserialisable'):
+                u = m.dispatch(a, ctx.ev(PayloadEvent, 'U1', event_timeout=30.0, blob=object()))
             await m.wait(p)
             for n, bb in buses.items():
                 await bb.wait_until_idle()
@@ -150,6 +152,9 @@ def t_wal(ctx):
         finish = [lab for lab, _ in sorted(last.items(), key=lambda kv: kv[1])]
         opens = [r for r in tr.recs if r.kind == 'WAL_OPEN' and r.bus == bn]
         writes = [r for r in tr.recs if r.kind == 'WAL_WRITE' and r.bus == bn]
+        if ctx.cfg.get('unserialisable'):
+            # the event that cannot be serialised gets no line (and no open attempt); everything else is as usual
+            finish = [l for l in finish if l != 'U1']
         ctx.check('C17.one_line_per_processed', len(opens) == len(finish), bus=bn, opens=len(opens), processed=finish)
         ctx.check('C17.append_mode', all(r.mode == 'a' for r in opens), bus=bn)
         if len(opens) != len(finish):
@@ -202,6 +207,7 @@ def jobs(tier):
         Job('C17', 's1.wal', t_wal, dict(topo='nested', faults=False), witnesses=('payload round-trip',)),
         Job('C17', 's1.wal', t_wal, dict(topo='forward', faults=False), witnesses=('payload round-trip',)),
         Job('C17', 's1.wal', t_wal, dict(topo='parallel', faults=False), witnesses=('payload round-trip',)),
+        Job('C17', 's1.wal', t_wal, dict(topo='nested', faults=False, unserialisable=True), witnesses=('payload round-trip',)),
     ]
     if tier == 'thorough':
         out.append(Job('C17', 's1.wal', t_wal, dict(topo='forward', faults=True), witnesses=('failed open', 'failed write')))
